@@ -169,6 +169,7 @@ RULE = (
     "l2_eps log-uniform in [1e-6,1e-3], both entry points. Oracle: membership in F={box, ||W(A'x-b')||<=l2_eps}; exact HiGHS LPs for "
     "'min'/'max' (on the equality set for optimality, on the relaxed inf-norm set for the 'better than possible' bracket); SLSQP witnesses "
     "(verified feasible) for the quadratic goals. Non-trivial = another goal's optimum has a clearly worse value of the selected goal."
+    " A fifth of the systems have two sources with proportional captures."
 )
 
 PROP = Prop(
